@@ -201,21 +201,21 @@ def cases(rng, tier):
                           polys=[poly_gen(rng, nd, 2) for _ in range(nd)], density=1.0, unit=None)
                 yield dict(kind="ops", exact=True, mesh=ms, field=fs, sub=rng.getrandbits(32))
     # ---- random operator cases, exact regime
-    for _ in range(420 if quick else 4000):
+    for _ in range(420 if quick else 2400):
         big = rng.random() < 0.6
         ms = gen_mesh(rng, min_n=3 if big else 1, nmax=5 if quick else 7, max_cells=130 if quick else 300)
         yield dict(kind="ops", exact=True, mesh=ms, field=gen_field_spec(rng, ms), sub=rng.getrandbits(32),
                    allrot=(rng.random() < (0.1 if quick else 0.3)))
     # ---- tolerance regime (cells 3,5,7 * 2^-k, float coefficients)
-    for _ in range(70 if quick else 700):
+    for _ in range(70 if quick else 450):
         ms = gen_mesh(rng, exact=False, min_n=rng.choice([1, 3]), nmax=5)
         yield dict(kind="ops", exact=False, mesh=ms, field=gen_field_spec(rng, ms, exact=False), sub=rng.getrandbits(32))
     # ---- constructor path / setters, valid and malformed
-    for _ in range(400 if quick else 4000):
+    for _ in range(400 if quick else 2400):
         ms = gen_mesh(rng, nmax=2, max_cells=8)
         yield dict(kind="meta", mesh=ms, sub=rng.getrandbits(32))
     # ---- __getattr__ and <<
-    for _ in range(80 if quick else 800):
+    for _ in range(80 if quick else 500):
         ms = gen_mesh(rng, nmax=3, max_cells=30)
         yield dict(kind="parts", mesh=ms, a=gen_field_spec(rng, ms), b=gen_field_spec(rng, ms), sub=rng.getrandbits(32))
 
@@ -414,7 +414,7 @@ def check_permutation(case, f, res, rng, fail):
             fail(f"pairing: {op} changes when the components are stored in order {perm} and relabelled {newlab} with the mapping carried along")
 
 
-def check_laplace_pairing(f, res, fail):
+def check_laplace_pairing(case, f, res, fail):
     L = res["laplace"]
     if is_err(L) or f.nvdim < 2:
         return
@@ -426,7 +426,9 @@ def check_laplace_pairing(f, res, fail):
     for a in range(f.nvdim):
         cin, cout = pin.index(a), pout.index(a)
         want = getattr(f, f.vdims[cin]).laplace.array[..., 0]
-        if not np.array_equal(L.array[..., cout], want):
+        same = (np.array_equal(L.array[..., cout], want) if case["exact"]
+                else bool(np.all(np.abs(L.array[..., cout] - want) <= 2.0 ** -30 * noise(f))))
+        if not same:
             fail(f"laplace-pairing: the component of laplace(v) paired with axis {f.mesh.region.dims[a]} (label {L.vdims[cout]}) is not the "
                  f"Laplacian of the component of v paired with that axis (label {f.vdims[cin]}); v.vdim_mapping={f.vdim_mapping}, "
                  f"result mapping={L.vdim_mapping}")
@@ -481,7 +483,7 @@ def run_ops(case, obs):
     exact_applies = check_exactness(case, f, res, scale, fail)
     check_identities(case, f, res, scale, fail)
     check_permutation(case, f, res, rng, fail)
-    check_laplace_pairing(f, res, fail)
+    check_laplace_pairing(case, f, res, fail)
     check_rot90(case, f, res, rng, "all" if case.get("allrot") else "two", scale, fail)
     if not (np.array_equal(snap[0], f.array) and np.array_equal(snap[1], f.valid)
             and snap[2] == (list(f.vdims) if f.vdims else None) and snap[3] == dict(f.vdim_mapping)):
